@@ -208,22 +208,21 @@ func NewCache(sessionCookieName string, sessionCookieTimeout time.Duration, cook
 	}
 }
 
-// addJarToCache takes a Jar from http.Client and stores it in a cache
-func (c *Cache) addJarToCache(sessionID string, jar http.CookieJar) {
-	c.mu.Lock()
-	c.cache.Add(sessionID, jar)
-	c.mu.Unlock()
-}
-
 // cachedCookieJar returns the CookieJar mapped to the sessionID
+//
+// The underlying LRU cache is not safe for concurrent use (even lookups
+// reorder its entries), so both the lookup and the insertion of a missing
+// entry are done while holding the lock.
 func (c *Cache) cachedCookieJar(sessionID string) (jar http.CookieJar, err error) {
+	c.mu.Lock()
+	defer c.mu.Unlock()
 	val, ok := c.cache.Get(sessionID)
 	if !ok {
 		options := cookiejar.Options{
 			PublicSuffixList: publicsuffix.List,
 		}
 		jar, err = cookiejar.New(&options)
-		c.addJarToCache(sessionID, jar)
+		c.cache.Add(sessionID, jar)
 		return jar, err
 	}
 
